@@ -281,6 +281,20 @@ def install(T: Theory):
         interp.run.assume(to_z3(s.length) == 2)
         return r
 
+    @T.ext('jax.numpy.isclose')
+    def _isclose(interp, a, b, rtol=1e-05, atol=1e-08, **kw):
+        """jnp.isclose(a, b): |a - b| <= atol + rtol * |b| element-wise (finite values; floats as reals)"""
+        from fractions import Fraction
+        if kw:
+            raise Unsupported('jnp.isclose with equal_nan')
+        if not isinstance(a, PArr) and not isinstance(b, PArr):
+            raise Unsupported('jnp.isclose outside the point facet')
+        av = to_real(a.term if isinstance(a, PArr) else a)
+        bv = to_real(b.term if isinstance(b, PArr) else b)
+        tol = z3.RealVal(Fraction(str(atol))) + z3.RealVal(Fraction(str(rtol))) * z3.If(bv >= 0, bv, -bv)
+        d = av - bv
+        return PArr(z3.And(d <= tol, -d <= tol))
+
     @T.ext('jax.numpy.where')
     def _where(interp, c, a, b):
         if isinstance(c, PArr):
